@@ -261,13 +261,12 @@ Byte:
 			// will account for both of them.
 			p.Pos.Byte++
 		case '\t':
-			// We arbitrarily count a tab as if it were two spaces, because
-			// we need to choose _some_ number here. This means any system
-			// that renders code on-screen with markers must itself treat
-			// tabs as a pair of spaces for rendering purposes, or instead
-			// use the byte offset and back into its own column position.
+			// A tab counts as one column, as in the native syntax (and as
+			// hcl.Pos documents: columns count characters, not screen cells).
+			// Any system that renders code on-screen with markers must
+			// decide for itself how wide a tab is.
 			p.Pos.Byte++
-			p.Pos.Column += 2
+			p.Pos.Column++
 		default:
 			break Byte
 		}
